@@ -129,6 +129,7 @@ pub enum DiagnosticInfoMessage {
     MissingArgumentsOnRecord,
     RecordShouldHaveTwoTypeArguments,
     DuplicatedRestNonSerializable,
+    TupleRestMustBeLast,
     UniqueNonSerializable,
     ReadonlyNonSerializable,
     ThisTypeNonSerializable,
@@ -172,6 +173,9 @@ impl DiagnosticInfoMessage {
             }
             DiagnosticInfoMessage::DuplicatedRestNonSerializable => {
                 "This rest parameter cannot be extracted".to_string()
+            }
+            DiagnosticInfoMessage::TupleRestMustBeLast => {
+                "A rest element must be the last element of a tuple type".to_string()
             }
             DiagnosticInfoMessage::ThisRefersToSomethingThatCannotBeSerialized(this) => {
                 format!("`{this}` cannot be extracted")
